@@ -164,13 +164,16 @@ def validate_shard(args):
     out = []
     cur = shard
     if prop == 'HEAP':
-        cap = job['inst']['cfg']['cap']
-        rej = vlib.tlc_validate('HeapTrace', dict(Keys={1, 2, 3}, Cap=cap, MaxPuts=24, MaxPanics=1), 'HEAP', shard, work.dir, job['tag'] + '-heap')
+        if job['kind'] == 'slru':
+            module, consts = 'SegHeapTrace', dict(Keys={1, 2, 3}, CA=job['inst']['cfg']['a'], CB=job['inst']['cfg']['b'], MaxPuts=24, MaxPanics=1)
+        else:
+            module, consts = 'HeapTrace', dict(Keys={1, 2, 3}, Cap=job['inst']['cfg']['cap'], MaxPuts=24, MaxPanics=1)
+        rej = vlib.tlc_validate(module, consts, 'HEAP', shard, work.dir, job['tag'] + '-heap')
         if rej:
             idx, rec = rej
             _, jump = vlib.read_record(shard, idx)
             d = describe(job, rec, jump, variant)
-            d['evaluated_as'] = 'HeapTrace (pointer-level model RawLRUHeap.tla cannot explain this event)'
+            d['evaluated_as'] = '%s (pointer-level model %s cannot explain this event)' % (module, 'SegHeap.tla' if job['kind'] == 'slru' else 'RawLRUHeap.tla')
             d['model_drift'] = True
             out.append(d)
         return out
@@ -238,7 +241,7 @@ def run_list_prop(prop, tier, seed, only_kinds=None, harness_variant='std', coll
             # pointer-level model: (A) TLC closes RawLRUHeap with panic points; (C) HeapTrace explains the RawLRU events
             heap_stats = heap_model_check(work, tier)
             if prop in ('C18', 'C04'):
-                tasks += [(j, s, 'HEAP', work, j['variant']) for j in jobs if j['kind'] == 'raw' and not j.get('random_only') for s in j['shards']]
+                tasks += [(j, s, 'HEAP', work, j['variant']) for j in jobs if j['kind'] in ('raw', 'slru') and not j.get('random_only') for s in j['shards']]
         log('[%s] validating %d shards' % (prop, len(tasks)))
         res = vlib.pool_map(validate_shard, tasks, max(2, vlib.NCPU - 2))
         viols = crashes + [d for r in res for d in r]
@@ -248,10 +251,10 @@ def run_list_prop(prop, tier, seed, only_kinds=None, harness_variant='std', coll
         drift = [d for d in viols if d.get('model_drift')]
         viols = [d for d in viols if not d.get('model_drift')]
         for d in drift[:5]:
-            log('MODEL-DRIFT (not a violation): RawLRUHeap.tla cannot explain', d.get('instance'), 'path=', json.dumps(d.get('path')),
+            log('MODEL-DRIFT (not a violation): the pointer-level model cannot explain', d.get('instance'), 'path=', json.dumps(d.get('path')),
                 'op=', json.dumps(d.get('op')), 'fault=', json.dumps((d.get('record') or {}).get('fault')))
         if heap_stats:
-            jobs[0]['heap_model'] = dict(model_check=heap_stats, heap_trace_unexplained=len(drift),
+            jobs[0]['heap_model'] = dict(model_check=heap_stats, heap_trace_unexplained=len(drift), heap_trace_explained=dict(vlib.HEAP_EXPLAINED),
                                          unexplained_samples=[dict(instance=d.get('instance'), path=d.get('path'), op=d.get('op')) for d in drift[:5]])
         if collect is not None:
             for j in jobs:
